@@ -152,9 +152,29 @@ func c03(e *Env) {
 		}
 		return len(en)
 	}
+	// some runs: a client stops reading for a while in the middle of the history - longer than any
+	// time-out the proxy is configured with, shorter than twice that - and then reads on: what it
+	// has not read waits for it, byte for byte (its socket takes a few hundred bytes meanwhile)
+	pauses := c.Choose("c03-client-pauses", 4) == 3
+	var paused *world.Client
+	var resumeAt time.Duration
+	w.OnStep = func() {
+		if paused != nil && w.Now() >= resumeAt {
+			paused.Link.SetNoRead(false, 0)
+			w.Logf("%s: READS AGAIN", paused)
+			paused = nil
+		}
+	}
 	w.DoWork = func(k int) {
 		cl := f.clients[en[k]]
 		sent++
+		if pauses && paused == nil && sent > 2 && c.Choose("c03-pause-now", 8) == 7 {
+			pauses = false
+			paused = cl
+			cl.StopReading(200 + c.Choose("c03-sndbuf", 3000))
+			resumeAt = w.Now() + []time.Duration{2 * time.Second, f.w.Cfg.IdleTimeout + 5*time.Second, f.w.Cfg.IdleTimeout + f.w.Cfg.IdleTimeout/2}[c.Choose("c03-pause-for", 3)]
+			e.Res.Stats["probe.c03.client_paused_reading"]++
+		}
 		tok := w.NewToken()
 		g := world.GenRequest(c, cl.Version, tok, pw.execIDs, pw.execSelect, maxVal)
 		if retryScript && c.Choose("scriptit", 3) == 2 {
